@@ -1,21 +1,23 @@
 (* Property C10 — a number is typed DateTime exactly when its cell style is a date/time format.
    Only the property theorems (closed by [exact]), [Check] pins, non-vacuity examples and
-   [Print Assumptions].  Model and spec: NumFmt.v; proofs: NumFmt_proofs.v. *)
+   [Print Assumptions].  Model and spec: NumFmt.v; proofs: NumFmt_proofs.v.
+   The model follows /repo after the fix: commits ac433ce c5a918f a61713f aa1af82 4fe67c6 35d58d0;
+   there is no known class left. *)
 From Calamine Require Import Prelude NumFmt NumFmt_proofs.
 Open Scope N_scope.
 
-(* string half: for every derivation of the number-format grammar (outside the known classes) the
-   scanner detect_custom_number_format returns the kind of the first deciding token of the first
+(* string half: for every derivation of the number-format grammar the scanner
+   detect_custom_number_format returns the kind of the first deciding token of the first
    section: DateTime for a date/time token, TimeDelta for an elapsed bracket, Other otherwise *)
 Theorem C10_scanner_agrees_with_grammar :
-  forall a : ast, wf a = true -> known_C10 a = None -> detect (render a) = classify a.
+  forall a : ast, wf a = true -> detect (render a) = classify a.
 Proof. exact scanner_agrees_with_grammar. Qed.
 
 (* stronger form for the tail: whatever follows the first top-level ';' is irrelevant (it need
    not even be well formed) *)
 Theorem C10_first_section_only :
   forall (s : section) (rest : list N),
-    wf_section s = true -> known_section false s = None ->
+    wf_section s = true ->
     detect (render_section s) = classify_section s /\
     detect (render_section s ++ 59 :: rest) = classify_section s.
 Proof. exact scanner_first_section_only. Qed.
@@ -28,13 +30,19 @@ Theorem C10_builtin_tables_agree :
 Proof. exact builtin_tables_agree. Qed.
 
 (* plumbing half, per file format: the cell is DateTime iff the format its style resolves to is
-   not Other, duration flavour iff elapsed, serial bits and date system unchanged (spec_cell) *)
+   not Other, duration flavour iff elapsed, serial bits and date system unchanged (spec_cell).
+   Hypotheses that remain and why:
+   - ids_below: numFmtId is a 32-bit unsigned (xlsx) / ifmt a 16-bit field (BIFF, XLSB);
+   - codes_nonempty (xlsx): Xlsx::read_styles skips a numFmt whose formatCode is empty and then
+     falls back to the built-in meaning of the id;
+   - xfs_present (xls, xlsb): a BIFF/XLSB XF record always carries an ifmt;
+   - customs_off_builtin_dates (xlsb): Xlsb::read_styles asks the built-in table first;
+     [MS-XLSB] 2.4.659 restricts the ifmt of BrtFmt so that this cannot be observed;
+   - nth_error … = Some fmt: the style index of the cell is inside cellXfs. *)
 Theorem C10_date_iff_style_xlsx :
   forall (t : style_table) (is_1904 : bool) (s_attr : option N) (bits : N) (fmt : option N),
     ids_below (2 ^ 32) t -> codes_nonempty t ->
     nth_error (xfs t) (N.to_nat (match s_attr with Some i => i | None => 0 end)) = Some fmt ->
-    known_xlsx_fmt t fmt = None ->
-    known_xlsx_cell (spec_formats t) s_attr = None ->
     xlsx_cell_number (xlsx_read_styles (enc_xlsx t)) is_1904 s_attr bits =
     spec_cell (resolve t fmt) is_1904 (NF bits).
 Proof. exact date_iff_style_xlsx. Qed.
@@ -46,6 +54,15 @@ Theorem C10_date_iff_style_xls :
     xls_cell_number (xls_formats (enc_biff t)) is_1904 ixfe v = spec_cell (resolve t fmt) is_1904 v.
 Proof. exact date_iff_style_xls. Qed.
 
+(* xls FORMULA records with a numeric cached value *)
+Theorem C10_date_iff_style_xls_formula :
+  forall (t : style_table) (is_1904 : bool) (ixfe bits : N) (fmt : option N),
+    ids_below 65536 t -> xfs_present t ->
+    nth_error (xfs t) (N.to_nat ixfe) = Some fmt ->
+    xls_formula_number (xls_formats (enc_biff t)) is_1904 ixfe bits =
+    spec_cell (resolve t fmt) is_1904 (NF bits).
+Proof. exact date_iff_style_xls_formula. Qed.
+
 Theorem C10_date_iff_style_xlsb :
   forall (t : style_table) (is_1904 : bool) (style_ref : N) (v : num) (fmt : option N),
     ids_below 65536 t -> xfs_present t -> customs_off_builtin_dates t ->
@@ -53,14 +70,6 @@ Theorem C10_date_iff_style_xlsb :
     xlsb_cell_number (xlsb_formats (enc_biff t)) is_1904 style_ref v =
     spec_cell (resolve t fmt) is_1904 v.
 Proof. exact date_iff_style_xlsb. Qed.
-
-(* xls FORMULA records: the cached number is specified only outside class 5 *)
-Theorem C10_xls_formula :
-  forall (formats : list cell_format) (is_1904 : bool) (ixfe bits : N) (k : cell_format),
-    nth_error formats (N.to_nat ixfe) = Some k ->
-    known_xls_formula formats ixfe = None ->
-    xls_formula_number formats is_1904 ixfe bits = spec_cell k is_1904 (NF bits).
-Proof. exact xls_formula_spec. Qed.
 
 (* what spec_cell says, spelled out *)
 Theorem C10_spec_cell_meaning :
@@ -77,77 +86,26 @@ Proof. exact spec_cell_meaning. Qed.
 Theorem C10_resolve_custom_classify :
   forall (t : style_table) (id : N) (a : ast),
     assoc_last N.eqb id (customs t) = Some (render a) ->
-    wf a = true -> known_C10 a = None ->
+    wf a = true ->
     resolve t (Some id) = classify a.
 Proof. exact resolve_custom_classify. Qed.
 
-(* the known classes are inhabited: the current code deviates on these derivations *)
-Theorem C10_refuted_quote_escape :
-  exists a, wf a = true /\ known_C10 a = Some 1 /\ detect (render a) <> classify a.
-Proof.
-  exists witness_quote_escape. destruct refuted_quote_escape as (H1 & H2 & _ & H4 & H5).
-  repeat split; try assumption. rewrite H4, H5. discriminate.
-Qed.
-
-Theorem C10_refuted_fill :
-  exists a, wf a = true /\ known_C10 a = Some 2 /\ detect (render a) <> classify a.
-Proof.
-  exists witness_fill. destruct refuted_fill as (H1 & H2 & _ & H4 & H5).
-  repeat split; try assumption. rewrite H4, H5. discriminate.
-Qed.
-
-Theorem C10_refuted_general :
-  exists a, wf a = true /\ known_C10 a = Some 3 /\ detect (render a) <> classify a.
-Proof.
-  exists witness_general_date. destruct refuted_general as (_ & _ & _ & _ & H1 & H2 & H4 & H5).
-  repeat split; try assumption. rewrite H4, H5. discriminate.
-Qed.
-
-Theorem C10_refuted_xlsx_default_style :
-  exists t s_attr bits fmt,
-    ids_below (2 ^ 32) t /\ codes_nonempty t /\
-    nth_error (xfs t) (N.to_nat (match s_attr with Some i => i | None => 0 end)) = Some fmt /\
-    known_xlsx_cell (spec_formats t) s_attr = Some 4 /\
-    xlsx_cell_number (xlsx_read_styles (enc_xlsx t)) false s_attr bits <>
-    spec_cell (resolve t fmt) false (NF bits).
-Proof.
-  exists (mkStyleTable [] [Some 14]), None, 4631107791820423168, (Some 14).
-  destruct refuted_xlsx_default_style as (H1 & H2 & H3 & H4 & H5).
-  split; [exact H1|]. split; [exact H2|]. split; [reflexivity|]. split; [exact H3|].
-  rewrite H4, H5. discriminate.
-Qed.
-
-Theorem C10_refuted_xlsx_escape :
-  exists t fmt,
-    ids_below (2 ^ 32) t /\ codes_nonempty t /\ nth_error (xfs t) 0 = Some fmt /\
-    known_xlsx_fmt t fmt = Some 6 /\
-    nth_error (xlsx_read_styles (enc_xlsx t)) 0 <> Some (resolve t fmt).
-Proof.
-  exists (mkStyleTable [(164, [34; 87; 101; 101; 107; 32; 34; 100; 100])] [Some 164]), (Some 164).
-  destruct refuted_xlsx_escape as (H1 & H2 & H3 & H4 & H5).
-  split; [exact H1|]. split; [exact H2|]. split; [reflexivity|]. split; [exact H3|].
-  rewrite H4. vm_compute. discriminate.
-Qed.
-
-(* outside class 6 the raw (escaped) attribute text classifies like the format code itself *)
-Theorem C10_xlsx_escape_harmless :
-  forall s : list N, known_xlsx_code s = None -> detect (xml_escape s) = detect s.
-Proof. exact detect_xml_escape. Qed.
-
-Theorem C10_refuted_xls_formula :
-  exists formats ixfe bits k,
-    nth_error formats (N.to_nat ixfe) = Some k /\ known_xls_formula formats ixfe = Some 5 /\
-    xls_formula_number formats false ixfe bits <> spec_cell k false (NF bits).
-Proof. exists [DateTime], 0, 4631107791820423168, DateTime. repeat split. discriminate. Qed.
-
-(* non-vacuity: concrete non-trivial objects meet the hypotheses *)
+(* non-vacuity: concrete non-trivial objects meet the hypotheses; the second example is the list
+   of derivations on which the scanner deviated before the fix: commits *)
 Example C10_grammar_nonvacuous :
   let a := [[TColour CMagenta [true]; TCond OpGe [49; 48; 48]; TLocale [8364] [52; 48; 55];
-             TQuoted [100; 92; 92]; TEsc 100; TPad 109; TFill 45; TLit 47;
+             TQuoted [100; 92; 92]; TEsc 100; TPad 109; TFill 100; TGeneral []; TLit 47;
              TElapsed EH 1 [false; true]; TLit 58; TDate LM 1 []; TSecFrac 2];
             [TGeneral [true]; TDate LD 0 []]] in
-  wf a = true /\ known_C10 a = None /\ classify a = TimeDelta /\ detect (render a) = TimeDelta.
+  wf a = true /\ classify a = TimeDelta /\ detect (render a) = TimeDelta.
 Proof. vm_compute. repeat split. Qed.
+
+Example C10_former_witnesses_nonvacuous :
+  forallb wf former_witnesses = true /\
+  map (fun a => detect (render a)) former_witnesses = map classify former_witnesses /\
+  map classify former_witnesses =
+    [DateTime; DateTime; Other; DateTime; DateTime; DateTime; Other; DateTime].
+Proof. exact former_witnesses_agree. Qed.
 
 Example C10_tables_nonvacuous :
   builtin_format_by_code 46 = TimeDelta /\ builtin_format_by_id (decimal 22) = DateTime /\
@@ -166,7 +124,7 @@ Example C10_plumbing_nonvacuous :
 Proof. exact plumbing_nonvacuous. Qed.
 
 Check C10_scanner_agrees_with_grammar :
-  forall a : ast, wf a = true -> known_C10 a = None -> detect (render a) = classify a.
+  forall a : ast, wf a = true -> detect (render a) = classify a.
 Check C10_builtin_tables_agree :
   forall c : N, c < 65536 ->
     builtin_format_by_code c = builtin_format_by_id (decimal c) /\
@@ -175,8 +133,6 @@ Check C10_date_iff_style_xlsx :
   forall (t : style_table) (is_1904 : bool) (s_attr : option N) (bits : N) (fmt : option N),
     ids_below (2 ^ 32) t -> codes_nonempty t ->
     nth_error (xfs t) (N.to_nat (match s_attr with Some i => i | None => 0 end)) = Some fmt ->
-    known_xlsx_fmt t fmt = None ->
-    known_xlsx_cell (spec_formats t) s_attr = None ->
     xlsx_cell_number (xlsx_read_styles (enc_xlsx t)) is_1904 s_attr bits =
     spec_cell (resolve t fmt) is_1904 (NF bits).
 Check C10_date_iff_style_xls :
@@ -184,6 +140,12 @@ Check C10_date_iff_style_xls :
     ids_below 65536 t -> xfs_present t ->
     nth_error (xfs t) (N.to_nat ixfe) = Some fmt ->
     xls_cell_number (xls_formats (enc_biff t)) is_1904 ixfe v = spec_cell (resolve t fmt) is_1904 v.
+Check C10_date_iff_style_xls_formula :
+  forall (t : style_table) (is_1904 : bool) (ixfe bits : N) (fmt : option N),
+    ids_below 65536 t -> xfs_present t ->
+    nth_error (xfs t) (N.to_nat ixfe) = Some fmt ->
+    xls_formula_number (xls_formats (enc_biff t)) is_1904 ixfe bits =
+    spec_cell (resolve t fmt) is_1904 (NF bits).
 Check C10_date_iff_style_xlsb :
   forall (t : style_table) (is_1904 : bool) (style_ref : N) (v : num) (fmt : option N),
     ids_below 65536 t -> xfs_present t -> customs_off_builtin_dates t ->
@@ -196,14 +158,7 @@ Print Assumptions C10_first_section_only.
 Print Assumptions C10_builtin_tables_agree.
 Print Assumptions C10_date_iff_style_xlsx.
 Print Assumptions C10_date_iff_style_xls.
+Print Assumptions C10_date_iff_style_xls_formula.
 Print Assumptions C10_date_iff_style_xlsb.
-Print Assumptions C10_xls_formula.
 Print Assumptions C10_spec_cell_meaning.
 Print Assumptions C10_resolve_custom_classify.
-Print Assumptions C10_refuted_quote_escape.
-Print Assumptions C10_refuted_fill.
-Print Assumptions C10_refuted_general.
-Print Assumptions C10_refuted_xlsx_default_style.
-Print Assumptions C10_refuted_xls_formula.
-Print Assumptions C10_refuted_xlsx_escape.
-Print Assumptions C10_xlsx_escape_harmless.
